@@ -46,7 +46,7 @@ import gen_schema
 PROP = 'C12'
 RULE = ('four streams from one PRNG: arbitrary strings (15 %), random token sequences (14 %), valid files and their '
         'single-edit mutations (68 %; attribute names of one class may coincide apart from letter case, `mro` is in the '
-        'identifier pool), small files around case-variant attribute names and python class attributes (3 %); 1-4 texts per loader; a case is non-trivial when at least one text was accepted and at least '
+        'identifier pool), small files around case-variant attribute names and python class attributes (3 %); 2.5 % of the texts get a numeral of 39-3999 digits (with or without fraction, in a column of a declared type) and 2 % a lone surrogate; 1-4 texts per loader; a case is non-trivial when at least one text was accepted and at least '
         'one rejected, or the build ended in a documented exception; distinct = distinct text sequence')
 EXHAUSTIVE = {'quick': False, 'thorough': False}
 ASSUMPTIONS = [
@@ -475,8 +475,39 @@ def with_surrogate(rng, text):
     return ''.join(toks)
 
 
+NUM_TOKEN = re.compile(r'\d+(?:\.\d+)?\Z')
+
+
+def long_numeral(rng):
+    """numerals around and beyond the range of a double (1.797e308: 309 digits) and of every machine integer"""
+    n = rng.choice([39, 300, 308, 309, 309, 310, 320, 400, 400, 1000, 3999])
+    body = rng.choice('1129') + ''.join(rng.choice('0123456789') for _ in range(n - 1))
+    if rng.random() < 0.2:
+        body = '0' * rng.choice([1, 50]) + body
+    return body + rng.choice(['', '', '.0', '.0', '.5', '.000000', '.0000001', '.' + '9' * 30])
+
+
+def with_long_numeral(rng, text):
+    """a very long numeral, with or without a fraction: in place of a numeral of the text, or in a small file of its own
+    (appended) whose only column has a declared core type, or none"""
+    toks = split_text(text)
+    nums = [k for k, t in enumerate(toks) if NUM_TOKEN.match(t)]
+    lit = long_numeral(rng)
+    if nums and rng.random() < 0.5:
+        toks[rng.choice(nums)] = lit
+        return ''.join(toks)
+    kind = rng.choice(['LN', 'Ln_%d' % rng.randint(0, 9)])
+    sign = rng.choice(['', '', '-'])
+    ty = gen_schema.gen_type(rng, 'INTEGER' if rng.random() < 0.35 else None)
+    head = 'CREATE TABLE %s (N %s); ' % (kind, ty) if rng.random() < 0.85 else ''
+    return text + rng.choice([' ', '\n']) + head + 'INSERT INTO %s VALUES (%s%s);\n' % (kind, sign, lit)
+
+
 def g_text(rng, env, stream):
     text = g_text0(rng, env, stream)
+    lrng = rng.fork('long-numeral', len(text), zlib.crc32(text.encode('utf-8', 'surrogatepass')))
+    if lrng.random() < 0.025:
+        text = with_long_numeral(lrng, text)
     # a PRNG of its own: the other cases stay what they were
     srng = rng.fork('surrogate', len(text), zlib.crc32(text.encode('utf-8', 'surrogatepass')))
     if srng.random() < 0.02:
